@@ -550,7 +550,8 @@ def parsePrimary : Nat → PS σ → PRes σ Prim
          match pNext T ps2 with
          | .error er => .error er
          | .ok (some (.rparen, rsp), ps3) => .ok (.parens (lsp.join rsp) e, ps3)
-         | .ok (_, _) => .error ⟨lsp.s⟩)
+         | .ok (some (_, tsp), _) => .error ⟨tsp.s⟩     -- the unexpected token
+         | .ok (none, _) => .error ⟨lsp.s⟩)             -- the open parenthesis
     | .ok (some (.lbracket, lsp), ps1) =>
       (match parseExprList f .rbracket [] ps1 with
        | .error e => .error e
